@@ -270,4 +270,49 @@ def callbackFires (m : Mode) (env : Env) (s : S) (v : J) : Bool := !jeq (visitD 
 def validateD (m : Mode) (env : Env) (s : S) (v : J) : Res × J :=
   (report m (visitD m env s v).1, (visitD m env s v).2)
 
+/-! ### on which value a sub-visit runs (table Gen/SubVisits; obligation `sub_visits_run_where_modelled` in Props/C01.lean)
+
+Every call `<sub-schema>.visitJSON(settings, <arg>)` of the validator, in source order, with the value it is handed as THIS
+model has it: `notD`, `selD` (oneOf candidates) and `eachD` (anyOf candidates) see the value `v1` / `v2` and what they leave
+behind is dropped (`nodeD`: `let v1 := v`, `afterOne` / `afterAny` read only the re-run of the matched candidate) — in the
+code: a deep copy made exactly when `settings.asreq || settings.asrep`, WHATEVER the JSON type of the value (injection,
+`Env.injects`, happens only under one of the two readings, so without the copy nothing could be written either);
+the re-run of the matched candidate, the allOf members (`seqD`), items, properties and additionalProperties run on the value
+itself / on its elements. -/
+
+inductive RunsOn where
+  | self              -- the value itself: what the sub-visit writes reaches the caller's value
+  | elem              -- an item / a member of the value
+  | copyUnderReading  -- a private deep copy whenever a request / response reading is set
+  deriving DecidableEq, Repr
+
+def modelSubVisits : List (String × RunsOn) :=
+  [("visitNotOperation", .copyUnderReading),   -- notD
+   ("visitXOFOperations", .copyUnderReading),  -- selD: every oneOf candidate
+   ("visitXOFOperations", .self),              -- afterOne: the only matching candidate once more
+   ("visitXOFOperations", .copyUnderReading),  -- eachD: every anyOf candidate
+   ("visitXOFOperations", .self),              -- afterAny: the first matching candidate once more
+   ("visitXOFOperations", .self),              -- seqD: allOf members one after the other
+   ("visitJSONArray", .elem),                  -- itemsD
+   ("visitJSONObject", .elem),                 -- propsD
+   ("visitJSONObject", .elem)]                 -- addlD
+
+mutual
+/-- a property `default` the injection loop can reach WITHOUT going through a `not`: one that can be written into the value
+the caller handed in (or into the value a matched oneOf/anyOf candidate is re-run on). When there is none, every default of
+the schema lives below a `not`, where it must not influence anything: the verdict is that of plain validation. -/
+def S.hasOwnDflt : S → Bool
+  | .mk _ a b c _ i p ad =>
+    hasOwnDfltL a || hasOwnDfltL b || hasOwnDfltL c || hasOwnDfltO i || hasOwnDfltP p || hasOwnDfltO ad
+def hasOwnDfltL : List S → Bool
+  | [] => false
+  | s :: ss => s.hasOwnDflt || hasOwnDfltL ss
+def hasOwnDfltO : Option S → Bool
+  | none => false
+  | some s => s.hasOwnDflt
+def hasOwnDfltP : List (String × S) → Bool
+  | [] => false
+  | (_, s) :: ps => s.kw.dflt.isSome || s.hasOwnDflt || hasOwnDfltP ps
+end
+
 end KinModel.Schema
